@@ -129,3 +129,36 @@ func VerifCheckSheet(rs, nums []int) (int, []int) {
 	}
 	return len(ws.SheetData.Row), placed
 }
+
+// VerifCheckRow runs checkRow over one row whose cells carry the given
+// columns as r attribute (0: no r attribute); cell i holds the value i. It
+// returns, per cell of the row afterwards, the index of the source cell it
+// holds (-1: a filler), and whether checkRow panicked.
+func VerifCheckRow(cols []int) (placed []int, panicked bool) {
+	ws := &xlsxWorksheet{}
+	row := xlsxRow{R: 1}
+	for i, col := range cols {
+		c := xlsxC{V: strconv.Itoa(i)}
+		if col > 0 {
+			c.R, _ = CoordinatesToCellName(col, 1)
+		}
+		row.C = append(row.C, c)
+	}
+	ws.SheetData.Row = []xlsxRow{row}
+	defer func() {
+		if recover() != nil {
+			placed, panicked = nil, true
+		}
+	}()
+	if err := ws.checkRow(); err != nil {
+		return nil, false
+	}
+	for _, c := range ws.SheetData.Row[0].C {
+		if i, err := strconv.Atoi(c.V); err == nil && c.V != "" {
+			placed = append(placed, i)
+		} else {
+			placed = append(placed, -1)
+		}
+	}
+	return placed, false
+}
